@@ -57,8 +57,12 @@ def with_watchdog(fn, context: str):
 class BlockingSrc:
     def __init__(self):
         self.gate, self.inload, self.block = threading.Event(), threading.Event(), False
+        self.block_etag, self.inetag = False, threading.Event()
 
     def etag(self):
+        if self.block_etag:
+            self.inetag.set()
+            self.gate.wait(WATCHDOG)
         return None
 
     def load(self):
@@ -112,6 +116,34 @@ def blocking_entry_points(run: lib.Run):
             r.stop(timeout=None)
             return True
         probes["HotReloader.stop(timeout=None) with the poller mid-check"] = stop_mid_check
+
+        def stuck_source(where: str, action: str):
+            """the poller is stuck inside the source (released only AFTER the entry point has returned): the entry point may
+            not wait for it — the reloader lock must not be held across source calls"""
+            def f():
+                src = BlockingSrc()
+                r = rloader.HotReloader(Guard(P), src, poll_interval=0.05)
+                if where == "load":
+                    src.block = True
+                else:
+                    src.block_etag = True
+                r.start()
+                try:
+                    (src.inload if where == "load" else src.inetag).wait(WATCHDOG / 2)
+                    if action == "stop":
+                        r.stop(timeout=0.2)
+                    elif action == "diagnostics":
+                        _ = (r.last_etag, r.last_error, r.suppressed_until) if hasattr(r, "last_etag") else None
+                    else:
+                        r.start()
+                    return True
+                finally:
+                    src.gate.set()
+                    r.stop(timeout=1.0)
+            return f
+        for where in ("load", "etag"):
+            for action in ("stop", "diagnostics", "start"):
+                probes[f"HotReloader {action} while the poller is stuck inside source.{where}()"] = stuck_source(where, action)
         for name, fn in probes.items():
             ok, res = with_watchdog(fn, ctx)
             run.evaluations += 1
@@ -188,8 +220,8 @@ def concurrency(run: lib.Run):
 
 def check(run: lib.Run, audit: dict) -> int:
     run.rule = ("deadlock: per-run obligation over 5 traced scenarios (check / start+stop × plain / running loop × initial load) + every blocking "
-                "entry point × {plain thread, running loop, worker thread} under a watchdog (17 probes per context incl. async source and stop(None) "
-                "with the poller mid-check); flavours: C01 template pool (subsampled) + random grammar cases × 5 flavours with recording sinks, "
+                "entry point × {plain thread, running loop, worker thread} under a watchdog (23 probes per context incl. async source, stop(None) "
+                "with the poller mid-check, stop/start/diagnostics with the poller stuck inside source.load()/etag()); flavours: C01 template pool (subsampled) + random grammar cases × 5 flavours with recording sinks, "
                 "policy/request canonical form compared before/after; one batch of 60 concurrent evaluate_async over 12 engines against the "
                 "sequential results. non-trivial = a rule decided")
     run.assumptions = ["flavour equality, non-interference and non-mutation are observed, not proved (PARTIAL)",
